@@ -21,8 +21,11 @@ Definition ok_cell_C03 (F : lay_fn) (l : AnyLayout) (k : KeyCode) (m : Modifiers
         | false, false => in_set r (c_base cell)
         | false, true => match c_shift cell with Some s => in_set r s | None => true end
         | true, false =>
-            dk_eqb r (F l k (drop_altgr m) hc) ||
-            match c_altgr cell with Some a => in_set r a | None => true end
+            (* a key that has a distinct AltGr character (judged at plain right-Alt) has it in EVERY state
+               selecting that level - right Alt, or left Alt with either Ctrl - never the base character *)
+            (dk_eqb (F l k m_altgr hc) (F l k m_none hc) || negb (dk_eqb r (F l k (drop_altgr m) hc))) &&
+            (dk_eqb r (F l k (drop_altgr m) hc) ||
+             match c_altgr cell with Some a => in_set r a | None => true end)
         | true, true => true
         end
   end.
@@ -38,8 +41,9 @@ Theorem C03_sound (I : LayImpl) : ok_C03 I = true ->
     match altgr_held m, shift_held m with
     | false, false => exists c, lay_map I l k m hc = Ret (DecodedKey_Unicode c) /\ In c (c_base cell)
     | false, true => forall s, c_shift cell = Some s -> exists c, lay_map I l k m hc = Ret (DecodedKey_Unicode c) /\ In c s
-    | true, false => lay_map I l k m hc = lay_map I l k (drop_altgr m) hc \/
-                     forall a, c_altgr cell = Some a -> exists c, lay_map I l k m hc = Ret (DecodedKey_Unicode c) /\ In c a
+    | true, false => (lay_map I l k m_altgr hc <> lay_map I l k m_none hc -> lay_map I l k m hc <> lay_map I l k (drop_altgr m) hc) /\
+                     (lay_map I l k m hc = lay_map I l k (drop_altgr m) hc \/
+                      forall a, c_altgr cell = Some a -> exists c, lay_map I l k m hc = Ret (DecodedKey_Unicode c) /\ In c a)
     | true, true => True
     end.
 Proof.
@@ -51,9 +55,13 @@ Proof.
     apply existsb_exists in Hr as (x & Hx & E). apply N.eqb_eq in E. subst x. exists c. auto. }
   destruct (altgr_held m), (shift_held m).
   - exact Logic.I.
-  - apply orb_prop in H1 as [E|A].
-    + left. apply dk_eqb_true. exact E.
-    + right. intros a Ha. rewrite Ha in A. apply IS. exact A.
+  - apply andb_prop in H1 as [U H1]. split.
+    + intros Hd Heq. apply orb_prop in U as [U|U].
+      * apply Hd. apply dk_eqb_true. exact U.
+      * rewrite Heq, dk_eqb_refl in U. discriminate.
+    + apply orb_prop in H1 as [E|A].
+      * left. apply dk_eqb_true. exact E.
+      * right. intros a Ha. rewrite Ha in A. apply IS. exact A.
   - intros s Hs. rewrite Hs in H1. apply IS. exact H1.
   - apply IS. exact H1.
 Qed.
